@@ -113,17 +113,17 @@ def split_line(line):
 PROFILES = {
     "mixed-styles": dict(p_arg=0.35, flavours=["sync", "sync", "async", "async", "mixed", "guards"],
                          styles_v=["next", "anext", "call", "sub", "iter", "for", "mixed", "mixed"],
-                         styles_a=["next", "anext", "call", "sub", "mixed", "mixed"], quick=3000, thorough=180000, corpus=True),
+                         styles_a=["next", "anext", "call", "sub", "mixed", "mixed"], quick=3000, thorough=120000, corpus=True),
     "sync-access-of-async-body": dict(p_arg=0.3, flavours=["async", "mixed"], styles_v=["next", "iter", "for", "call-wait"],
-                                      styles_a=["next", "call-wait"], quick=1500, thorough=120000),
+                                      styles_a=["next", "call-wait"], quick=1500, thorough=80000),
     "async-access": dict(p_arg=0.4, flavours=["async", "mixed", "sync"], styles_v=["anext", "call", "sub", "mixed"],
-                         styles_a=["anext", "call", "sub", "mixed"], quick=1500, thorough=120000),
+                         styles_a=["anext", "call", "sub", "mixed"], quick=1500, thorough=80000),
     "reentrant-callback": dict(p_arg=0.5, flavours=["async", "mixed", "args", "sync"], styles_v=["sub", "sub", "mixed"],
-                               styles_a=["sub", "sub", "mixed"], quick=2000, thorough=120000),
+                               styles_a=["sub", "sub", "mixed"], quick=2000, thorough=80000),
     "arguments": dict(p_arg=1.0, flavours=["args", "args", "mixed"], styles_v=["mixed"], styles_a=["next", "anext", "call", "mixed", "mixed"],
-                      quick=1500, thorough=100000),
+                      quick=1500, thorough=70000),
     "destroy-parked": dict(p_arg=0.2, flavours=["guards"], styles_v=["next", "anext", "call", "iter", "mixed"],
-                           styles_a=["next", "anext", "call", "mixed"], quick=1500, thorough=80000, p_destroy=0.85),
+                           styles_a=["next", "anext", "call", "mixed"], quick=1500, thorough=60000, p_destroy=0.85),
 }
 
 
@@ -620,7 +620,7 @@ class BatonSuite(Suite):
         if tier == "quick":
             scns, length = self.FIXED + [self.scenario(rng) for _ in range(6)], 9
         else:
-            scns, length = self.FIXED + [self.scenario(rng) for _ in range(40)], 12
+            scns, length = self.FIXED + [self.scenario(rng) for _ in range(28)], 12
         cases = []
         for mode, script, ops, ks in scns:
             for bits in itertools.product("01", repeat=length):
